@@ -711,6 +711,9 @@ func TestC03(t *testing.T) {
 	}
 	if cfg.Replay != "" {
 		for _, raw := range cfg.ReplayInputs(t) {
+			if len(raw) > 0 && raw[0] == '{' {
+				continue // an input of driver (b)
+			}
 			var txs [][]c03Op
 			if err := json.Unmarshal(raw, &txs); err != nil {
 				t.Fatal(err)
